@@ -566,7 +566,7 @@ func streamRetarget(g *vlib.Rng) {
 		if g.Chance(1, 6) {
 			mb = 0x1e0fffff
 		}
-		cfgs = append(cfgs, cfg{nets[i%len(nets)], mb, spacings[g.Intn(len(spacings))], 2014 + g.Intn(5) + 2016*g.Intn(2)})
+		cfgs = append(cfgs, cfg{nets[i%len(nets)], mb, spacings[g.Intn(len(spacings))], 2014 + g.Intn(5) + 2016*g.Intn(3)})
 	}
 	for ci, c := range cfgs {
 		t := newTree()
@@ -575,7 +575,14 @@ func streamRetarget(g *vlib.Rng) {
 		ts := uint32(1600000000)
 		tip := t.add(nil, 0, ts, c.maxBits)
 		valid := !(c.net.testnet4 && !c.net.testnet)
+		// the spacing changes from one retarget period to the next, so that difficulty goes up and then down again
+		// (only then do both clamps change the result below the pow limit)
+		perSp := []int{c.spacing, spacings[g.Intn(len(spacings))], spacings[g.Intn(len(spacings))], spacings[g.Intn(len(spacings))]}
+		if ci%2 == 0 {
+			perSp = []int{100 + g.Intn(60), 2300 + g.Intn(900), 500 + g.Intn(200), 30}
+		}
 		for int(tip.Height) < c.len {
+			c.spacing = perSp[(int(tip.Height)/2016)%len(perSp)]
 			step := uint32(c.spacing)
 			if g.Chance(1, 10) {
 				step = uint32(g.Intn(2 * c.spacing + 1))
